@@ -36,6 +36,7 @@ type c03Run struct {
 	Family   string     `json:"family"`
 	Adders   []c03Adder `json:"adders"`
 	Rotators []string   `json:"rotators"`
+	NRot     int        `json:"nRot"` // rotate1 calls per rotator; the clock moves on one span between two calls
 	Counters []string   `json:"counters"`
 	Warm     []string   `json:"warm"`
 	InitOpen bool       `json:"initOpen"`
@@ -75,6 +76,7 @@ type c03World struct {
 	begun   map[string]int
 	hold    map[string]int // task -> step of its last hold acquisition
 	sched   *rt.Sched
+	now     time.Time
 }
 
 var c03w *c03World
@@ -196,7 +198,7 @@ func (w *c03World) modelCell(v uint64) int {
 
 func (w *c03World) project() rt.M {
 	st, ptr, nxt := rt.M{}, rt.M{}, rt.M{}
-	cell1, cell2 := rt.M{}, rt.M{}
+	cell1, cell2, cell3 := rt.M{}, rt.M{}, rt.M{}
 	nameOf := func(c *Counter) string {
 		switch {
 		case c == nil:
@@ -209,8 +211,8 @@ func (w *c03World) project() rt.M {
 		}
 		return "other"
 	}
-	var fdec [2]map[string]uint64
-	for i := 0; i < 2 && i < len(w.files); i++ {
+	var fdec [3]map[string]uint64
+	for i := 0; i < 3 && i < len(w.files); i++ {
 		if data, err := os.ReadFile(w.files[i]); err == nil {
 			fdec[i] = rt.DecodeV1(data).Counts()
 		}
@@ -222,6 +224,7 @@ func (w *c03World) project() rt.M {
 		nxt[n] = nameOf(c.next.Raw())
 		cell1[n] = w.modelCell(fdec[0][c.name])
 		cell2[n] = w.modelCell(fdec[1][c.name])
+		cell3[n] = w.modelCell(fdec[2][c.name])
 	}
 	var open []int
 	for _, r := range w.regions {
@@ -260,7 +263,7 @@ func (w *c03World) project() rt.M {
 		faulted = []string{}
 	}
 	return rt.M{"st": st, "ptr": ptr, "nxt": nxt, "head": nameOf(w.f.counters.Raw()), "cur": w.regionOfMapped(w.f.current.Raw()),
-		"open": open, "mu": mu, "cell1": cell1, "cell2": cell2, "begun": begun, "done": done, "faulted": faulted,
+		"open": open, "mu": mu, "cell1": cell1, "cell2": cell2, "cell3": cell3, "begun": begun, "done": done, "faulted": faulted,
 		"fileopen": w.f.current.Raw() != nil}
 }
 
@@ -272,8 +275,8 @@ func c03Setup(t *testing.T, run *c03Run) *c03World {
 	os.MkdirAll(telemetry.Default.LocalDir(), 0777)
 	os.WriteFile(filepath.Join(telemetry.Default.LocalDir(), "weekends"), []byte("2\n"), 0666)
 	t1 := time.Date(2024, 3, 4, 12, 0, 0, 0, time.UTC) // a Monday; the span ends Tuesday
-	now := t1
-	CounterTime = func() time.Time { return now }
+	w.now = t1
+	CounterTime = func() time.Time { return w.now }
 	memmap, munmap = c03Memmap, c03Munmap
 	w.f.buildInfo = &debug.BuildInfo{GoVersion: "go1.23.0", Path: "example.com/verif/c03", Main: debug.Module{Path: "example.com/verif", Version: "v1.0.0"}}
 	for _, n := range run.Counters {
@@ -332,7 +335,7 @@ func c03Setup(t *testing.T, run *c03Run) *c03World {
 		w.relinkWarm()
 	}
 	if run.Clock2 {
-		now = t1.AddDate(0, 0, 7)
+		w.now = t1.AddDate(0, 0, 7)
 	}
 	return w
 }
@@ -394,7 +397,14 @@ func c03One(t *testing.T, run *c03Run) {
 		})
 	}
 	for _, r := range run.Rotators {
-		s.Go(r, func() { w.f.rotate1() })
+		s.Go(r, func() {
+			w.f.rotate1()
+			for k := 1; k < run.NRot; k++ {
+				rt.Yield("tick", "") // a model step of its own: the clock moves on to the next span
+				w.now = w.now.AddDate(0, 0, 7)
+				w.f.rotate1()
+			}
+		})
 	}
 	rng := rand.New(rand.NewSource(run.Seed))
 	emit := func(kind string, m rt.M) {
